@@ -3,6 +3,8 @@ C04 - property theorems: arithmetic aligns operands by dimension name and by lab
 -/
 import DimModel.Lib.Operation
 import DimModel.Gen.TableC04
+import DimModel.Props.C06
+import DimModel.Proofs.C04
 namespace DimModel
 open Lib
 
@@ -169,5 +171,147 @@ theorem operation_attrs_dropped {α : Type} (nan : α) (f : α → α → α) (a
           · simp only [pure, Except.pure] at h
             cases h
             rfl
+
+
+/-! ### end-to-end (round 2): `a op b` for two arrays over the same dimensions
+
+Statement history (round-2 drafts, validated on instances with `#eval` before proving): the three drafts are TRUE
+as they were written and are proved UNCHANGED.  The points that were to be checked:
+* the common axes come in the order of `a.dims` (`getDims [a.axes, b.axes] = a.dims` when `b.dims = a.dims` and
+  the names are distinct: `getDims_pair_same`), so `r.axes.map (·.labels) = commons.map (·.labels)` holds
+  position by position;
+* `getAlignedAxes [a.axes, b.axes]` is `getAlignedAxes ([a, b].map (·.axes))` by `rfl`;
+* `newaxes.map (fun ax => { ax with })` is `newaxes` (structure eta, `List.map_id'`);
+* `operation` compares `Axis.size` (which looks at `members`) with the broadcast shape: `align` returns plain
+  axes when it is given plain axes (`align_members`, new), so the sizes are the numbers of labels;
+* `alignDims` returns the aligned pair unchanged (`eraseDups [d, d] = [d]`), no aligned axis carries `Label.none`
+  (its labels are labels of the operands), both aligned operands have the same shape, `bcastShape s s = some s`,
+  and inside the shape `bcastIdx s j = j` (a dimension of size 1 has the only index 0).
+The helper lemmas are in `DimModel/Proofs/C04.lean`. -/
+
+/-- LABEL-WISE COMPUTATION.  For two arrays that list the same dimensions in the same order (labels in any order,
+label sets equal, overlapping, nested or disjoint), `a op b` has those dimensions, carries on every dimension the
+common (union) labels, and its value at every label coordinate is `f` of `a`'s value at that coordinate and `b`'s
+value at that coordinate, where an operand that does not have the coordinate contributes `nan`
+(`alignVals`); the result carries no metadata -/
+theorem operation_same_dims_spec {α : Type} (nan : α) (f : α → α → α) (a b r : DimArray α) (k1 k2 : Kind)
+    (ha : AlignInput a) (hb : AlignInput b) (hd : a.dims = b.dims)
+    (h : operation nan f a b = .ok (r, k1, k2)) :
+    r.dims = a.dims ∧ r.attrs = [] ∧
+    (∃ commons : List Axis,
+      getAlignedAxes [a.axes, b.axes] .outer none false false = .ok commons ∧
+      r.axes.map (·.labels) = commons.map (·.labels)) ∧
+    r.vals.shape = r.axes.map (·.labels.length) ∧
+    ∀ j, InRange r.vals.shape j →
+      r.vals.get j = f ((alignVals a (r.axes.map (·.labels)) nan).get j) ((alignVals b (r.axes.map (·.labels)) nan).get j) := by
+  obtain ⟨o1, o2, commons, hg, _, hd1, hl1, hl2, hv1, hv2, hop⟩ :=
+    operation_same_dims_core nan f a b ha hb hd
+  rw [hop] at h
+  simp only [Except.ok.injEq, Prod.mk.injEq] at h
+  obtain ⟨rfl, _, _⟩ := h
+  refine ⟨hd1, rfl, ⟨commons, hg, hl1⟩, hv1.1, ?_⟩
+  intro j hj
+  have hj0 : InRange o1.vals.shape j := hj
+  have hj1 : InRange (o1.axes.map (·.labels.length)) j := hv1.1 ▸ hj0
+  have hj2 : InRange (o2.axes.map (·.labels.length)) j := by
+    rw [map_labels_length, hl2, ← hl1, ← map_labels_length]; exact hj1
+  show f (o1.vals.get (bcastIdx o1.vals.shape j)) (o2.vals.get (bcastIdx o1.vals.shape j)) = _
+  rw [bcastIdx_inRange _ _ hj0, hv1.2 j hj1, hv2.2 j hj2, hl2, ← hl1]
+
+/-- every label of the result comes from an operand and every operand label is in the result, each once -/
+theorem operation_same_dims_labels {α : Type} (nan : α) (f : α → α → α) (a b r : DimArray α) (k1 k2 : Kind)
+    (ha : AlignInput a) (hb : AlignInput b) (hd : a.dims = b.dims)
+    (h : operation nan f a b = .ok (r, k1, k2)) (k : Nat) (hk : k < a.axes.length) (v : Label) :
+    ((r.axes.getD k default).labels).Nodup ∧
+    (v ∈ (r.axes.getD k default).labels ↔ v ∈ (a.axes.getD k default).labels ∨ v ∈ (b.axes.getD k default).labels) := by
+  obtain ⟨o1, o2, commons, hg, hnames, hd1, hl1, _, _, _, hop⟩ :=
+    operation_same_dims_core nan f a b ha hb hd
+  rw [hop] at h
+  simp only [Except.ok.injEq, Prod.mk.injEq] at h
+  obtain ⟨rfl, _, _⟩ := h
+  have hk1 : k < o1.axes.length := by
+    have := congrArg List.length hd1
+    simp only [DimArray.dims, List.length_map] at this
+    omega
+  have hkc : k < commons.length := by
+    have := congrArg List.length hl1
+    simp only [List.length_map] at this
+    omega
+  have e : (o1.axes.getD k default).labels = (commons.getD k default).labels := by
+    have := congrArg (fun l => l[k]?) hl1
+    simp only [List.getElem?_map, List.getElem?_eq_getElem hk1, List.getElem?_eq_getElem hkc,
+      Option.map_some, Option.some.injEq] at this
+    rw [axes_getD_eq_getElem _ _ hk1, axes_getD_eq_getElem _ _ hkc]
+    exact this
+  show ((o1.axes.getD k default).labels).Nodup ∧ (v ∈ (o1.axes.getD k default).labels ↔ _)
+  rw [e]
+  exact commons_pair_labels a b ha hb hd commons hg hnames k hk v
+
+/-- on such operands the operation does not fail -/
+theorem operation_same_dims_succeeds {α : Type} (nan : α) (f : α → α → α) (a b : DimArray α)
+    (ha : AlignInput a) (hb : AlignInput b) (hd : a.dims = b.dims) :
+    ∃ r k1 k2, operation nan f a b = .ok (r, k1, k2) := by
+  obtain ⟨o1, o2, _, _, _, _, _, _, _, _, hop⟩ := operation_same_dims_core nan f a b ha hb hd
+  exact ⟨_, _, _, hop⟩
+
+/-! non-vacuity: two 2-D arrays over `x`, `y` with integer labels in different orders and overlapping label sets.
+`decide` cannot evaluate `operation` (`align` re-indexes with `locate_many`, which sorts with `mergeSort`), so
+success comes from `operation_same_dims_succeeds`; evaluated with `#eval`, `a + b` with `nan = -1` has the labels
+`x = [3, 1, 2]`, `y = [7, 5, 9]` and the values `[[-1, 0, -2], [111, 111, 101], [110, 109, 111]]`. -/
+def exOpA : DimArray Int :=
+  { axes := [{ name := "x", labels := [.num 3, .num 1], kind := .i },
+             { name := "y", labels := [.num 7, .num 5], kind := .i }],
+    vals := ⟨[2, 2], fun j => 10 * j.getD 0 0 + j.getD 1 0⟩ }
+def exOpB : DimArray Int :=
+  { axes := [{ name := "x", labels := [.num 1, .num 2], kind := .i },
+             { name := "y", labels := [.num 5, .num 7, .num 9], kind := .i }],
+    vals := ⟨[2, 3], fun j => 100 + 10 * j.getD 0 0 + j.getD 1 0⟩ }
+
+theorem exOpA_input : AlignInput exOpA := by unfold AlignInput exOpA; decide
+theorem exOpB_input : AlignInput exOpB := by unfold AlignInput exOpB; decide
+
+example : ∃ (r : DimArray Int) (k1 k2 : Kind),
+    operation (-1) (· + ·) exOpA exOpB = .ok (r, k1, k2) ∧
+    r.dims = ["x", "y"] ∧ r.attrs = [] ∧ r.vals.shape = [3, 3] ∧
+    (r.axes.getD 0 default).labels.Nodup ∧ (r.axes.getD 1 default).labels.Nodup ∧
+    (∀ v, v ∈ (r.axes.getD 0 default).labels ↔ v = .num 3 ∨ v = .num 1 ∨ v = .num 2) ∧
+    (∀ v, v ∈ (r.axes.getD 1 default).labels ↔ v = .num 7 ∨ v = .num 5 ∨ v = .num 9) := by
+  obtain ⟨r, k1, k2, h⟩ :=
+    operation_same_dims_succeeds (-1) (· + ·) exOpA exOpB exOpA_input exOpB_input (by decide)
+  have hs := operation_same_dims_spec (-1) (· + ·) exOpA exOpB r k1 k2 exOpA_input exOpB_input (by decide) h
+  have h0 := fun v => operation_same_dims_labels (-1) (· + ·) exOpA exOpB r k1 k2 exOpA_input exOpB_input
+    (by decide) h 0 (by decide) v
+  have h1 := fun v => operation_same_dims_labels (-1) (· + ·) exOpA exOpB r k1 k2 exOpA_input exOpB_input
+    (by decide) h 1 (by decide) v
+  have m0 : ∀ v, v ∈ (r.axes.getD 0 default).labels ↔ v = .num 3 ∨ v = .num 1 ∨ v = .num 2 := by
+    intro v
+    rw [(h0 v).2]
+    simp only [exOpA, exOpB, List.getD_cons_zero, List.mem_cons, List.not_mem_nil, or_false]
+    constructor
+    · rintro ((h | h) | (h | h)) <;> simp [h]
+    · rintro (h | h | h) <;> simp [h]
+  have m1 : ∀ v, v ∈ (r.axes.getD 1 default).labels ↔ v = .num 7 ∨ v = .num 5 ∨ v = .num 9 := by
+    intro v
+    rw [(h1 v).2]
+    simp only [exOpA, exOpB, List.getD_cons_succ, List.getD_cons_zero, List.mem_cons, List.not_mem_nil, or_false]
+    constructor
+    · rintro ((h | h) | (h | h | h)) <;> simp [h]
+    · rintro (h | h | h) <;> simp [h]
+  refine ⟨r, k1, k2, h, hs.1, hs.2.1, ?_, (h0 Label.none).1, (h1 Label.none).1, m0, m1⟩
+  -- a duplicate-free list with exactly three members has three elements
+  have len3 : ∀ (L : List Label) (x y z : Label), [x, y, z].Nodup → L.Nodup →
+      (∀ v, v ∈ L ↔ v = x ∨ v = y ∨ v = z) → L.length = 3 := by
+    intro L x y z hxyz hL hm
+    have : L.Perm [x, y, z] := (List.perm_ext_iff_of_nodup hL hxyz).mpr (fun v => by rw [hm v]; simp)
+    simpa using this.length_eq
+  have hlen : r.axes.length = 2 := by
+    have := congrArg List.length hs.1
+    simpa [DimArray.dims, exOpA] using this
+  rw [hs.2.2.2.1]
+  match hr : r.axes, hlen with
+  | [x0, x1], _ =>
+    simp only [hr, List.getD_cons_zero, List.getD_cons_succ] at h0 h1 m0 m1
+    simp only [List.map_cons, List.map_nil, len3 _ _ _ _ (by decide) (h0 Label.none).1 m0,
+      len3 _ _ _ _ (by decide) (h1 Label.none).1 m1]
 
 end DimModel
